@@ -584,4 +584,21 @@ theorem knotErr_bound (beats : Int → Rat) : ∀ (rest : List TSig) (s : TSig) 
         _ ≤ 1 / 5000 + (r.length : Rat) / 5000 := add_le_add hterm ih'
         _ = ((r.length : Rat) + 1) / 5000 := by ring
 
+/-! ### small facts used by the property theorems -/
+
+theorem lines_sorted (beats : Int → Rat) (mnum : Int → Int) (ts : List TSig)
+    (h : (ts.map fun x => dec4 (beats x.t)).Pairwise (· < ·)) :
+    (ts.map (tsLineOf beats mnum)).Pairwise (fun a b => a.timeB ≤ b.timeB) := by
+  rw [List.pairwise_map] at h ⊢
+  exact h.imp (fun hab => le_of_lt hab)
+
+theorem min_zero_lipschitz (a b : Rat) : |min a 0 - min b 0| ≤ |a - b| := by
+  have h1 := le_abs_self (a - b)
+  have h2 := neg_abs_le (a - b)
+  rcases le_total a 0 with ha | ha <;> rcases le_total b 0 with hb | hb
+  · rw [min_eq_left ha, min_eq_left hb]
+  · rw [min_eq_left ha, min_eq_right hb, abs_le]; constructor <;> linarith
+  · rw [min_eq_right ha, min_eq_left hb, abs_le]; constructor <;> linarith
+  · rw [min_eq_right ha, min_eq_right hb, sub_zero, abs_zero]; exact abs_nonneg _
+
 end C08M
